@@ -137,7 +137,9 @@ func c15DescribeMsg(m *Message) map[string]interface{} {
 
 // c15MaxLabels returns the largest number of labels of any name in m.  A name with L labels can make the decoder follow at
 // most L compression pointers (every hop of a chain but the first passes at least one literal label), so messages whose
-// names all have <= compressionPointerLimit labels can never need more pointers than the decoder follows.
+// names all have <= 10 labels can never need more pointers than the pinned decoder (limit 10) follows.
+const c15SafeLabels = 10
+
 func c15MaxLabels(m *Message) int {
 	max := 0
 	see := func(n Name) {
@@ -185,7 +187,8 @@ func c15RoundTrip(rec *kit.Rec, origin, desc string, m *Message) (ok bool) {
 		msg := "MessageFromWireFormat refused bytes that WireFormat produced without an error"
 		if errors.Is(derr, ErrTooManyPointers) {
 			// one signature for this defect whatever the origin or the depth
-			sig = "dns:message:compression-pointer-chain-longer-than-decoder-limit"
+			// (the decoder's limit is part of the signature: a tree with another limit is another finding)
+			sig = fmt.Sprintf("dns:message:compression-pointer-chain-longer-than-decoder-limit-%d", compressionPointerLimit)
 			msg = "WireFormat compressed nested names into a chain of more compression pointers than MessageFromWireFormat is willing to follow"
 		}
 		rec.Violation(sig, msg, map[string]interface{}{"case": desc, "decode_error": derr.Error(), "max_labels_in_a_name": c15MaxLabels(m),
@@ -643,11 +646,11 @@ func TestVerifC15Messages(t *testing.T) {
 	defer rec.Close()
 	rng := kit.Rand("c15messages")
 
-	// (A) generated messages whose names have at most compressionPointerLimit labels: pointer chains occur but can never be
+	// (A) generated messages whose names have at most c15SafeLabels (= the pinned decoder limit, 10) labels: pointer chains occur but can never be
 	// longer than the decoder's limit, so every failure here is a defect other than the pointer-limit one
 	nA := kit.Tier(6000, 150000)
 	for i := 0; i < nA; i++ {
-		m := c15GenMessage(rng, rec, compressionPointerLimit, i%40 == 0)
+		m := c15GenMessage(rng, rec, c15SafeLabels, i%40 == 0)
 		desc := fmt.Sprintf("messageA#%d q=%d an=%d ns=%d ar=%d maxlabels=%d", i, len(m.Question), len(m.Answer), len(m.Authority), len(m.Additional), c15MaxLabels(m))
 		rec.CaseCheap(desc)
 		ok := c15RoundTrip(rec, "generated", desc, m)
